@@ -597,7 +597,16 @@ pub fn root_entries_for(v: &VolSpec) -> u32 {
     }
     let used = count_slots(&v.root) + if v.geom.label { 1 } else { 0 };
     match v.root_pad_free {
-        Some(p) => div_up((used + (p as u32 % 16)).max(1), 16) * 16,
+        // with a count from the generator that is not a multiple of 16 the directory gets exactly
+        // `used + p` slots: the last root sector then has padding behind the directory's end
+        Some(p) => {
+            let n = (used + (p as u32 % 16)).max(1);
+            if v.geom.root_entries % 16 != 0 {
+                n
+            } else {
+                div_up(n, 16) * 16
+            }
+        }
         None => {
             let want = v.geom.root_entries as u32;
             if want >= used.max(1) {
@@ -988,6 +997,21 @@ pub fn mkfs(spec: &DiskSpec) -> (Image, Vec<PVol>) {
                 if off < root_bytes.len() {
                     let n = (root_bytes.len() - off).min(512);
                     b[..n].copy_from_slice(&root_bytes[off..off + n]);
+                }
+                // slots of the last sector that lie behind the directory's last slot are not part
+                // of the directory; on a "stale" volume they hold what looks like live entries
+                if v.stale && v.usable.frag_seed % 2 == 0 {
+                    for k in 0..16u32 {
+                        let slot_no = s * 16 + k;
+                        if slot_no >= lay.root_entries {
+                            let o = k as usize * 32;
+                            let name = format!("STALE{:03}$$$", slot_no % 1000);
+                            b[o..o + 11].copy_from_slice(name.as_bytes());
+                            b[o + 11] = 0x20;
+                            b[o + 26] = 3;
+                            b[o + 28] = 7;
+                        }
+                    }
                 }
                 ctx.img.wr(start + s, &b);
             }
